@@ -589,6 +589,36 @@ func (pe *PEval) call(fn *ssa.Function, cc *ssa.CallCommon, get func(ssa.Value) 
 		}
 		return PTuple{res.Results}, nil
 	}
+	// pure string functions of the standard library fold on constant arguments (tags such as mode names, never input text)
+	if callee != nil && callee.Pkg != nil && callee.Pkg.Pkg.Path() == "strings" && callee.Signature.Recv() == nil {
+		var strs []string
+		allConst := true
+		for _, a := range args {
+			if c, ok := a.(PConst); ok && c.V != nil && c.V.Kind() == constant.String {
+				strs = append(strs, constant.StringVal(c.V))
+			} else {
+				allConst = false
+			}
+		}
+		if allConst {
+			mk := func(v string) PVal { return PConst{constant.MakeString(v), types.Typ[types.String]} }
+			mkb := func(v bool) PVal { return PConst{constant.MakeBool(v), types.Typ[types.Bool]} }
+			switch {
+			case callee.Name() == "ToUpper" && len(strs) == 1:
+				return mk(strings.ToUpper(strs[0])), nil
+			case callee.Name() == "ToLower" && len(strs) == 1:
+				return mk(strings.ToLower(strs[0])), nil
+			case callee.Name() == "TrimSpace" && len(strs) == 1:
+				return mk(strings.TrimSpace(strs[0])), nil
+			case callee.Name() == "EqualFold" && len(strs) == 2:
+				return mkb(strings.EqualFold(strs[0], strs[1])), nil
+			case callee.Name() == "HasPrefix" && len(strs) == 2:
+				return mkb(strings.HasPrefix(strs[0], strs[1])), nil
+			case callee.Name() == "HasSuffix" && len(strs) == 2:
+				return mkb(strings.HasSuffix(strs[0], strs[1])), nil
+			}
+		}
+	}
 	name := "?"
 	if cc.IsInvoke() {
 		name = cc.Method.Name()
